@@ -3,6 +3,7 @@ from props import TB_COMMON
 HDR6 = "From TeraV Require Import Model.ParseDepth Corr.CorrC06."
 HDR6L = "From TeraV Require Import Model.Value Model.Lexer Corr.CorrC06Lex."
 CFG = {
+    "escalate": False,  # thorough generators take far longer than the second-pass budget (DESIGN 15.1)
     "bin": "c06",
     "corr": ["CorrC06", "CorrC06Lex"],
     "harness_timeout": 2400,
